@@ -32,7 +32,15 @@ pub struct Sc {
     /// "-H", "-L" (before the starting point) or "-follow" (in the expression)
     #[serde(default)]
     pub follow: Option<String>,
+    /// the starting point is given through `-files0-from FILE` instead of the command line
+    #[serde(default)]
+    pub files0: bool,
+    /// `xargs -0 -I{} CMD -- {}`: one invocation per path, the path substituted unmodified
+    #[serde(default)]
+    pub xargs_replace: bool,
 }
+
+const STARTS_FILE: &str = ".starts0";
 
 impl Sc {
     fn render(&mut self) {
@@ -42,7 +50,12 @@ impl Sc {
                 a.push(f.clone());
             }
         }
-        a.push(self.start.clone());
+        if self.files0 {
+            a.push("-files0-from".into());
+            a.push(STARTS_FILE.into());
+        } else {
+            a.push(self.start.clone());
+        }
         if self.follow.as_deref() == Some("-follow") {
             a.push("-follow".into());
         }
@@ -116,7 +129,12 @@ impl Property for C07 {
             },
             xargs_n: if rng.chance(1, 3) { Some(*rng.pick(&[1usize, 2, 3, 10])) } else { None },
             follow: if rng.chance(1, 4) { Some(rng.pick(&["-H", "-L", "-L", "-follow"]).to_string()) } else { None },
+            files0: rng.chance(1, 8),
+            xargs_replace: rng.chance(1, 5),
         };
+        if sc.xargs_replace {
+            sc.xargs_n = None;
+        }
         sc.render();
         sc
     }
@@ -136,6 +154,12 @@ impl Property for C07 {
         if let Err(e) = tree::build(&root, &sc.find.tree) {
             rep.fail("C07.HARNESS-tree-build", format!("cannot build tree: {e}"));
             return;
+        }
+        if sc.files0 {
+            let mut list = sc.start.as_bytes().to_vec();
+            list.push(0);
+            let _ = std::fs::write(root.join(STARTS_FILE), list);
+            rep.probe("starting_point_through_files0_from");
         }
         let wcfg = WalkCfg {
             follow: match sc.follow.as_deref() {
@@ -256,9 +280,13 @@ impl Property for C07 {
         if let Some(n) = sc.xargs_n {
             opts.push(Opt::N(n));
         }
+        if sc.xargs_replace {
+            opts.push(Opt::ReplI("{}".into()));
+            rep.probe("xargs_null_with_replace_mode");
+        }
         let xs = XargsScenario {
             opts,
-            cmd: vec!["CMD".into(), "--".into(), "fixed arg".into()],
+            cmd: vec!["CMD".into(), "--".into(), if sc.xargs_replace { "{}".into() } else { "fixed arg".into() }],
             input: B(stream.clone()),
             read_plan: plan,
             outcomes: sc.outcomes.clone(),
@@ -278,6 +306,14 @@ impl Property for C07 {
         let spawns = xobs.spawn_argvs();
         let mut delivered: Vec<Vec<u8>> = vec![];
         for argv in &spawns {
+            if sc.xargs_replace {
+                if argv.len() != 3 || argv[0] != b"CMD" || argv[1] != b"--" {
+                    rep.fail("C07.command-changed", format!("replace mode: expected CMD -- PATH, got {}", describe_spawns(&[argv.clone()])));
+                    return;
+                }
+                delivered.push(argv[2].clone());
+                continue;
+            }
             if argv.len() < 3 || argv[0] != b"CMD" || argv[1] != b"--" || argv[2] != b"fixed arg" {
                 rep.fail("C07.command-changed", format!("invocation does not start with the command: {}", describe_spawns(&[argv.clone()])));
                 return;
@@ -362,6 +398,16 @@ impl Property for C07 {
             s.follow = None;
             push(s);
         }
+        if sc.files0 {
+            let mut s = sc.clone();
+            s.files0 = false;
+            push(s);
+        }
+        if sc.xargs_replace {
+            let mut s = sc.clone();
+            s.xargs_replace = false;
+            push(s);
+        }
         for t in shrink_tree(&sc.find.tree, &[root.clone()]) {
             let mut s = sc.clone();
             s.find.tree = t;
@@ -404,7 +450,7 @@ impl Property for C07 {
 
     fn crosscheck(sc: &Sc, ctx: &mut Ctx, bins: &std::path::Path) -> crate::crosscheck::Xc {
         use crate::crosscheck::Xc;
-        if !sc.nul {
+        if !sc.nul || sc.files0 || sc.xargs_replace {
             return Xc::NotComparable;
         }
         // in-process find gives the stream; the real pipeline must deliver exactly its records
